@@ -129,7 +129,7 @@ def skeletons() -> st.SearchStrategy:
         return {"root": root, "ns": ns, "short": short, "version": version, "port": None, "allow_unregulated": False, "statements": st_}
 
     return st.tuples(
-        st.sampled_from(["uavcan", "vendor", "cyphal", "zubax"]),
+        st.sampled_from(["uavcan", "vendor", "cyphal", "zubax", "Uavcan", "CYPHAL"]),
         st.lists(st.sampled_from(NS_GOOD), max_size=2, unique=True),
         st.sampled_from(SHORT_GOOD),
         st.sampled_from([[1, 0], [0, 1], [1, 1], [255, 255], [2, 7]]),
@@ -175,7 +175,7 @@ def edits() -> st.SearchStrategy:
             st.sampled_from([0, 1, 255, 256, 383, 384, 511, 512, 6143, 6144, 7167, 7168, 8191, 8192, 9000, 100, 6500, 7500, 300, 400]),
             st.booleans(),
         ),
-        st.tuples(st.just("root"), st.sampled_from(["uavcan", "cyphal", "vendor", "regulated"])),
+        st.tuples(st.just("root"), st.sampled_from(["uavcan", "cyphal", "vendor", "regulated", "UAVCAN", "Cyphal", "uavcaN"])),
         st.tuples(st.just("short"), st.one_of(st.sampled_from(SHORT_GOOD), st.sampled_from(BAD_NAMES), st.sampled_from(FILE_BAD_NAMES))),
         st.tuples(st.just("nscomp"), st.one_of(st.sampled_from(NS_GOOD), st.sampled_from(BAD_NAMES), st.sampled_from(FILE_BAD_NAMES))),
         st.tuples(st.just("allow"), st.booleans()),
